@@ -57,7 +57,7 @@ def sweep_cases(ctx):
     for _ in range(reps):
         for f in fracs:
             for kind in ('sleep', 'raise', 'owntimeout', 'ownmemerr', 'native', 'swallow', 'retnone', 'retzero', 'retempty'):
-                if ctx.quick and rng.random() < 0.45:
+                if ctx.quick and f not in (0.3, 2.6) and rng.random() < 0.45:       # one early and one late case per kind always
                     continue
                 cases.append({'kind': kind, 'limit': limit, 'dur': round(limit*f, 4), 'inner_limit': 0})
     # nested calls: outer limit, inner limit, function duration
